@@ -89,3 +89,9 @@ mut("awkward_reduce_sum_loses_flavor", "src/vector/backends/awkward.py", '      
 mut("awkward_wrap_drops_extra_4d", "src/vector/backends/awkward.py", '                        "energy",\n                    ):\n                        names.append(name)\n                        arrays.append(self[name])\n\n            return maybe_record(\n                ak.zip(\n                    dict(zip(names, arrays)),\n                    depth_limit=first.layout.purelist_depth,\n                    with_name=_class_to_name(cls.ProjectionClass4D),',
     '                        "energy",\n                        "charge",\n                    ):\n                        names.append(name)\n                        arrays.append(self[name])\n\n            return maybe_record(\n                ak.zip(\n                    dict(zip(names, arrays)),\n                    depth_limit=first.layout.purelist_depth,\n                    with_name=_class_to_name(cls.ProjectionClass4D),', ["C18"], "4D vector-valued results drop a field named charge")
 mut("awkward_wrap_depth_limit_off_by_one", "src/vector/backends/awkward.py", "                    depth_limit=first.layout.purelist_depth,\n                    with_name=_class_to_name(cls.ProjectionClass3D),", "                    depth_limit=max(1, first.layout.purelist_depth - 1),\n                    with_name=_class_to_name(cls.ProjectionClass3D),", ["C18", "C03"], "3D results are zipped one level too shallow (records of lists instead of lists of records)")
+
+# --- NumPy arrays as arrays of vectors (C19) ----------------------------------------------------------------------------
+mut("getitem_element_temporal_from_longitudinal", "src/vector/backends/numpy.py", "                *(out[x] for x in _coordinate_class_to_names[_ttype(array)])", "                *(out[x] for x in _coordinate_class_to_names[_ltype(array)])", ["C19"], "arr[i] of a 4D array takes the temporal coordinate from the longitudinal column")
+mut("momentum_object_array_generic", "src/vector/backends/object.py", "        from vector.backends.numpy import MomentumNumpy3D\n\n        return MomentumNumpy3D(", "        from vector.backends.numpy import VectorNumpy3D\n\n        return VectorNumpy3D(", ["C19"], "numpy.asanyarray(MomentumObject3D) loses the flavor")
+mut("setstate_drops_dict", "src/vector/backends/numpy.py", "        self.__dict__.update(state[-1])\n", "", ["C19"], "unpickled arrays lose their coordinate-type attributes")
+mut("getitem_str_energy_maps_to_tau", "src/vector/backends/numpy.py", "    if isinstance(where, str):\n        if is_momentum:\n            where = _repr_momentum_to_generic.get(where, where)\n        return array.view(numpy.ndarray)[where]", "    if isinstance(where, str):\n        if is_momentum:\n            where = {**_repr_momentum_to_generic, \"e\": \"tau\"}.get(where, where)\n        return array.view(numpy.ndarray)[where]", ["C19", "C14"], "arr['e'] returns the tau column")
